@@ -3,46 +3,55 @@ import DustVerif.Proofs.PlistCodec
     pid, lifting of the value round trip to whole records. -/
 namespace DustVerif.Plist
 
-/-- a parameter exactly as it lies on the wire: pid, length, value (nothing added) -/
-def serRaw (p : Param) : Bytes := le16 p.1 ++ le16 p.2.length ++ p.2
+/-- a parameter exactly as it lies on the wire in byte order `e`: pid, length, value (nothing added) -/
+def serRaw (e : End) (p : Param) : Bytes := enc16 e p.1 ++ enc16 e p.2.length ++ p.2
 
-def serRaws : List Param → Bytes
+def serRaws (e : End) : List Param → Bytes
   | [] => []
-  | p :: ps => serRaw p ++ serRaws ps
+  | p :: ps => serRaw e p ++ serRaws e ps
 
 /-- a parameter the iterator can step over: 16-bit pid other than the sentinel, 16-bit length -/
 def RawOk (p : Param) : Prop := p.1 < 65536 ∧ p.1 ≠ 1 ∧ p.2.length < 65536
 
-theorem serRaws_append (a b : List Param) : serRaws (a ++ b) = serRaws a ++ serRaws b := by
+theorem serRaws_append (e : End) (a b : List Param) : serRaws e (a ++ b) = serRaws e a ++ serRaws e b := by
   induction a with
   | nil => simp [serRaws]
   | cons p ps ih => simp [serRaws, ih]
 
-theorem serRaws_length_ge (ps : List Param) : 4 * ps.length ≤ (serRaws ps).length := by
+theorem serRaws_length_ge (e : End) (ps : List Param) : 4 * ps.length ≤ (serRaws e ps).length := by
   induction ps with
   | nil => simp [serRaws]
   | cons p ps ih => simp [serRaws, serRaw]; omega
 
-theorem scan_step (f : Nat) (p : Param) (rest : Bytes) (h : RawOk p) :
-    scan .le (f + 1) (serRaw p ++ rest) = (p :: (scan .le f rest).1, (scan .le f rest).2) := by
+theorem rd16_enc16 (e : End) (n : Nat) (h : n < 65536) :
+    ∃ a b, enc16 e n = [a, b] ∧ rd16 e a b = n := by
+  cases e
+  · exact ⟨_, _, rfl, rd16_le16 n h⟩
+  · exact ⟨_, _, rfl, rd16_be16 n h⟩
+
+theorem scan_step (e : End) (f : Nat) (p : Param) (rest : Bytes) (h : RawOk p) :
+    scan e (f + 1) (serRaw e p ++ rest) = (p :: (scan e f rest).1, (scan e f rest).2) := by
   obtain ⟨h1, h2, h3⟩ := h
-  have hpid : rd16 .le (p.1 % 256) (p.1 / 256 % 256) = p.1 := rd16_le16 _ h1
-  have hlen : rd16 .le (p.2.length % 256) (p.2.length / 256 % 256) = p.2.length := rd16_le16 _ h3
+  obtain ⟨a, b, hab, hpid⟩ := rd16_enc16 e p.1 h1
+  obtain ⟨c, d, hcd, hlen⟩ := rd16_enc16 e p.2.length h3
   have hne : (p.1 == 1) = false := by simp [h2]
-  simp only [serRaw, le16, List.cons_append, List.nil_append, scan, hpid, hlen, hne,
+  simp only [serRaw, hab, hcd, List.cons_append, List.nil_append, scan, hpid, hlen, hne,
     Bool.false_or, List.length_append, decide_eq_true_eq]
   have : ¬ (p.2.length > p.2.length + rest.length) := by omega
   simp [this]
 
+theorem scan_sentinel (e : End) (f : Nat) (tail : Bytes) : scan e (f + 1) (sentinel e ++ tail) = ([], false) := by
+  cases e <;> simp [sentinel, enc16, scan, rd16]
+
 /-- the iterator over a well-delimited list yields exactly its parameters, and ends at the sentinel -/
-theorem scan_raws (ps : List Param) : ∀ (f : Nat) (tail : Bytes), ps.length + 1 ≤ f → (∀ p ∈ ps, RawOk p) →
-    scan .le f (serRaws ps ++ (sentinel ++ tail)) = (ps, false) := by
+theorem scan_raws (e : End) (ps : List Param) : ∀ (f : Nat) (tail : Bytes), ps.length + 1 ≤ f → (∀ p ∈ ps, RawOk p) →
+    scan e f (serRaws e ps ++ (sentinel e ++ tail)) = (ps, false) := by
   induction ps with
   | nil =>
     intro f tail hf _
     cases f with
     | zero => omega
-    | succ f => simp [serRaws, sentinel, scan, rd16]
+    | succ f => simp [serRaws, scan_sentinel]
   | cons p ps ih =>
     intro f tail hf h
     cases f with
@@ -50,50 +59,92 @@ theorem scan_raws (ps : List Param) : ∀ (f : Nat) (tail : Bytes), ps.length + 
     | succ f =>
       have hp : RawOk p := h p (by simp)
       have hps : ∀ q ∈ ps, RawOk q := fun q hq => h q (by simp [hq])
-      simp only [serRaws, List.append_assoc, scan_step f p _ hp, ih f tail (by simpa using hf) hps]
+      simp only [serRaws, List.append_assoc, scan_step e f p _ hp, ih f tail (by simpa using hf) hps]
 
-theorem mkPl_raws (ps : List Param) (tail : Bytes) (h : ∀ p ∈ ps, RawOk p) :
-    mkPl (plHeader ++ (serRaws ps ++ (sentinel ++ tail)))
-      = { h0 := 0, h1 := 3, e := some .le, items := (768, []) :: ps, tailErr := false } := by
-  have hhdr : plHeader = serRaw (768, []) := by simp [plHeader, serRaw, le16]
-  have hall : ∀ p ∈ ((768, []) :: ps : List Param), RawOk p := by
-    intro p hp
-    simp only [List.mem_cons] at hp
-    rcases hp with hp | hp
-    · subst hp; simp [RawOk]
-    · exact h p hp
-  have hlen : ((768, []) :: ps : List Param).length + 1
-      ≤ (plHeader ++ (serRaws ps ++ (sentinel ++ tail))).length := by
-    have := serRaws_length_ge ps
-    simp [plHeader, sentinel]; omega
-  have hs := scan_raws ((768, []) :: ps) _ tail hlen hall
-  simp only [serRaws, ← hhdr, List.append_assoc] at hs
-  generalize hd : plHeader ++ (serRaws ps ++ (sentinel ++ tail)) = data at hs
-  have h0 : data.headD 0 = 0 := by rw [← hd]; rfl
-  have h1 : (data.drop 1).headD 0 = 3 := by rw [← hd]; rfl
-  unfold mkPl
-  simp only [h0, h1]
-  simp [hs]
+/-- the pid as which the unrepaired iterator reads the encapsulation header: 0x0300 under PL_CDR_LE,
+    0x0002 (= PID_PARTICIPANT_LEASE_DURATION) under PL_CDR_BE -/
+def hdrPid (e : End) : Nat :=
+  match e with
+  | .le => 768
+  | .be => 2
 
-/-- the first real parameter of a little-endian list is always seen, whatever follows it -/
-theorem mkPl_first (q : Param) (rest : Bytes) (hq : RawOk q) :
-    ∃ X t, mkPl (plHeader ++ (serRaw q ++ rest))
-      = { h0 := 0, h1 := 3, e := some .le, items := (768, []) :: q :: X, tailErr := t } := by
-  have hhdr : plHeader = serRaw (768, []) := by simp [plHeader, serRaw, le16]
-  have h768 : RawOk (768, []) := by simp [RawOk]
-  have hlen : (plHeader ++ (serRaw q ++ rest)).length = (rest.length + q.2.length + 6) + 1 + 1 := by
-    simp [plHeader, serRaw]; omega
-  have hs : scan .le (plHeader ++ (serRaw q ++ rest)).length (plHeader ++ (serRaw q ++ rest))
-      = ((768, []) :: q :: (scan .le (rest.length + q.2.length + 6) rest).1,
-         (scan .le (rest.length + q.2.length + 6) rest).2) := by
-    rw [hlen, hhdr, scan_step _ _ _ h768, scan_step _ _ _ hq]
-  refine ⟨(scan .le (rest.length + q.2.length + 6) rest).1, (scan .le (rest.length + q.2.length + 6) rest).2, ?_⟩
-  generalize hd : plHeader ++ (serRaw q ++ rest) = data at hs
-  have h0 : data.headD 0 = 0 := by rw [← hd]; rfl
-  have h1 : (data.drop 1).headD 0 = 3 := by rw [← hd]; rfl
-  unfold mkPl
-  simp only [h0, h1]
-  simp [hs]
+/-- octet 1 of the encapsulation header -/
+def hdrByte (e : End) : Nat :=
+  match e with
+  | .le => 3
+  | .be => 2
+
+/-- the pseudo-parameter in front of the real ones (none after fixes/D-plist-1.patch) -/
+def hdrItems (cfg : Cfg) (e : End) : List Param := if cfg.fixHdr then [] else [(hdrPid e, [])]
+
+theorem plHeader_raw (e : End) : plHeader e = serRaw e (hdrPid e, []) := by
+  cases e <;> simp [plHeader, serRaw, hdrPid, enc16]
+
+theorem plHeader_length (e : End) : (plHeader e).length = 4 := by cases e <;> rfl
+
+theorem mkPl_header (cfg : Cfg) (e : End) (rest : Bytes) (items : List Param) (t : Bool)
+    (hs : (if cfg.fixHdr then scan e (plHeader e ++ rest).length rest
+           else scan e (plHeader e ++ rest).length (plHeader e ++ rest)) = (items, t)) :
+    mkPl cfg (plHeader e ++ rest)
+      = { h0 := 0, h1 := hdrByte e, e := some e, items := items, tailErr := t } := by
+  have hdrop : (plHeader e ++ rest).drop 4 = rest := by cases e <;> simp [plHeader]
+  have key : (if cfg.fixHdr then scan e (plHeader e ++ rest).length ((plHeader e ++ rest).drop 4)
+      else scan e (plHeader e ++ rest).length (plHeader e ++ rest)) = (items, t) := by
+    rw [hdrop]; exact hs
+  clear hs hdrop
+  generalize hd : plHeader e ++ rest = data at key
+  have h0 : data.headD 0 = 0 := by rw [← hd]; cases e <;> rfl
+  cases e with
+  | le =>
+    have h1 : (data.drop 1).headD 0 = 3 := by rw [← hd]; rfl
+    unfold mkPl
+    simp only [h0, h1]
+    simp [key, hdrByte]
+  | be =>
+    have h1 : (data.drop 1).headD 0 = 2 := by rw [← hd]; rfl
+    unfold mkPl
+    simp only [h0, h1]
+    simp [key, hdrByte]
+
+/-- what the decoder knows about a well-delimited list in byte order `e` -/
+theorem mkPl_raws (cfg : Cfg) (e : End) (ps : List Param) (tail : Bytes) (h : ∀ p ∈ ps, RawOk p) :
+    mkPl cfg (plHeader e ++ (serRaws e ps ++ (sentinel e ++ tail)))
+      = { h0 := 0, h1 := hdrByte e, e := some e, items := hdrItems cfg e ++ ps,
+          tailErr := false } := by
+  apply mkPl_header
+  have hge := serRaws_length_ge e ps
+  by_cases hf : cfg.fixHdr = true
+  · simp only [hf, if_true, hdrItems, List.nil_append]
+    apply scan_raws e ps _ tail _ h
+    simp only [List.length_append, plHeader_length]; omega
+  · simp only [hf, Bool.false_eq_true, if_false, hdrItems, List.cons_append, List.nil_append]
+    have hall : ∀ p ∈ ((hdrPid e, []) :: ps : List Param), RawOk p := by
+      intro p hp
+      simp only [List.mem_cons] at hp
+      rcases hp with hp | hp
+      · subst hp; cases e <;> simp [RawOk, hdrPid]
+      · exact h p hp
+    have := scan_raws e ((hdrPid e, []) :: ps) (plHeader e ++ (serRaws e ps ++ (sentinel e ++ tail))).length tail
+      (by simp only [List.length_append, List.length_cons, plHeader_length]; omega) hall
+    simpa only [serRaws, ← plHeader_raw, List.append_assoc] using this
+
+/-- the first real parameter of a list is always seen, whatever follows it -/
+theorem mkPl_first (cfg : Cfg) (e : End) (q : Param) (rest : Bytes) (hq : RawOk q) :
+    ∃ X t, mkPl cfg (plHeader e ++ (serRaw e q ++ rest))
+      = { h0 := 0, h1 := hdrByte e, e := some e, items := hdrItems cfg e ++ q :: X,
+          tailErr := t } := by
+  have hlen : (plHeader e ++ (serRaw e q ++ rest)).length = (rest.length + q.2.length + 6) + 1 + 1 := by
+    simp [plHeader_length, serRaw]; omega
+  by_cases hf : cfg.fixHdr = true
+  · refine ⟨(scan e (rest.length + q.2.length + 6 + 1) rest).1, (scan e (rest.length + q.2.length + 6 + 1) rest).2, ?_⟩
+    apply mkPl_header
+    simp only [hf, if_true, hdrItems, List.nil_append]
+    rw [hlen, scan_step _ _ _ _ hq]
+  · refine ⟨(scan e (rest.length + q.2.length + 6) rest).1, (scan e (rest.length + q.2.length + 6) rest).2, ?_⟩
+    apply mkPl_header
+    have h768 : RawOk (hdrPid e, []) := by cases e <;> simp [RawOk, hdrPid]
+    simp only [hf, Bool.false_eq_true, if_false, hdrItems, List.cons_append, List.nil_append]
+    rw [hlen, plHeader_raw, scan_step _ _ _ _ h768, scan_step _ _ _ _ hq]
 
 /-! ### look-ups -/
 
